@@ -58,7 +58,14 @@ def random_file(rng, nv, nl):
             lines.append({'k': 'c'})
         else:
             hi = nv + (1 if rng.random() < 0.05 else 0)
-            lines.append({'k': 'e', 's': rng.randint(1, max(1, hi)), 't': rng.randint(1, max(1, hi)),
+            s_, t_ = rng.randint(1, max(1, hi)), rng.randint(1, max(1, hi))
+            if rng.random() < 0.04:         # an endpoint that no problem line can declare: 0, negative, far out of range
+                bad = rng.choice([0, 0, -1, -7, nv + 2, nv + 1000])
+                if rng.random() < 0.5:
+                    s_ = bad
+                else:
+                    t_ = bad
+            lines.append({'k': 'e', 's': s_, 't': t_,
                           'w': rng.choice([OMITTED, 1000, 2000, 15000, 2500, 125, 999000, 31000, 1, 100000])})
     return {'lines': lines, 'nl': rng.random() < 0.5}
 
@@ -78,7 +85,7 @@ def check_C10(res, tier, seed, replay):
             raise vlib.HarnessError('MC_Dimacs violated\n' + r['out'][-3000:])
         res.add_mc('Dimacs.tla: line-by-line reader machine = whole-file meaning (edges in file order, declared endpoints only, error at the first undeclared endpoint), all files within the bound', r)
         exe = harness()
-        files, multi = gen_files(wd, 2, 2 if tier == 'quick' else 3, [1000, 2500, 15000] if tier == 'quick' else [15000], 3 if tier != 'quick' else 2, 3, [-1, 0, 1])
+        files, multi = gen_files(wd, 2, 2 if tier == 'quick' else 3, [1000, 2500] if tier == 'quick' else [15000], 3 if tier != 'quick' else 2, 3, [-1, 0, 1])
         res.cov['exhaustive_space'] = '%d abstract files (<= %d body lines over <= 2 declared vertices, comments anywhere, weights present/omitted/decimal, with/without trailing newline); %d multigraphs for the validators' % (
             len(files), 2 if tier == 'quick' else 3, len(multi))
         fdir = os.path.join(wd, 'files')
